@@ -1,6 +1,6 @@
 PROPS['C06'] = dict(
     level='exploration',
-    technique='rapidcheck stateful generation of prefix histories (other arguments, rejected calls, computes without init) on the six Krylov solver classes with user functors and on nineteen solver / library-wrapper combinations (every class in Spectra/MatOp, five generalized modes); bitwise differential oracle fresh vs reused vs second solver on a shared operator, and a bitwise fingerprint of every public operation of the operator',
+    technique='rapidcheck stateful generation of prefix histories (other arguments, rejected calls, computes without init) on the six Krylov solver classes with user functors and on nineteen solver / library-wrapper combinations (every class in Spectra/MatOp, five generalized modes), plus Davidson (three operator forms) and LOBPCG; bitwise differential oracle fresh vs reused vs second solver on a shared operator, and a bitwise fingerprint of every public operation of the operator',
     level_text='For a drawn (operator, nev, ncv, start vector, selection, sorting, maxit, tol) the observed init(v); compute(args) is executed (i) by a fresh solver on a fresh operator, (ii) by a solver that first went through a drawn '
                'history of up to 4 other operations (init+compute with other arguments, compute without init, init with a zero vector, compute with an unsupported rule, init only), (iii) by a second solver constructed on the same '
                'operator object, and (iv) by the first solver again afterwards. Eigenvalues, eigenvectors, return value, info(), num_iterations() and num_operations() must agree bit for bit with (i). The operator is '
@@ -9,13 +9,13 @@ PROPS['C06'] = dict(
                'SparseRegularInverse and SymShiftInvert in four storage combinations - under SymEigs/HermEigs/SymEigsShift/GenEigs/GenEigsRealShift/GenEigsComplexShift/SymGEigs<Cholesky|RegularInverse>/'
                'SymGEigsShift<ShiftInvert|Buckling|Cayley>. The prefix history there also contains the user calling the wrapper on vectors of their own and another solver object constructed (re-installing the shift), run and destroyed '
                'on the same wrapper objects; the fingerprint covers perform_op, solve, both triangular solves, operator* and operator().',
-    level_note='Operators are deterministic user functors (dense LU solves for the shift families), so bitwise equality is the right oracle. c06w uses double only (the wrappers are exercised in three scalar types by C11). PartialSVD reuse is covered by C16; Davidson / LOBPCG are not part of this harness.',
-    units=[dict(name='c06', src='c06_purity.cpp'), dict(name='c06w', src='c06_wrappers.cpp')],
+    level_note='Operators are deterministic user functors (dense LU solves for the shift families), so bitwise equality is the right oracle. c06w uses double only (the wrappers are exercised in three scalar types by C11). PartialSVD reuse is covered by C16. Third unit (c06o): DavidsonSymEigsSolver on DenseSymMatProd / SparseSymMatProd / a user operator (fresh vs reused after a prefix of other compute() / compute_with_guess() calls vs second solver on the shared operator vs first solver again, operator fingerprint) and LOBPCGSolver (no init(), continues from its iterate by design: two objects built from the same inputs must agree bit for bit, also with other runs in between).',
+    units=[dict(name='c06', src='c06_purity.cpp'), dict(name='c06w', src='c06_wrappers.cpp'), dict(name='c06o', src='c06_others.cpp')],
     runs=dict(
-        quick=[dict(unit='c06', cases=2500, workers=4), dict(unit='c06w', cases=1500, workers=4)],
-        thorough=[dict(unit='c06', cases=25000, workers='all'), dict(unit='c06w', cases=12000, workers='all')],
+        quick=[dict(unit='c06', cases=2500, workers=4), dict(unit='c06w', cases=1500, workers=4), dict(unit='c06o', cases=2500, workers=4)],
+        thorough=[dict(unit='c06', cases=25000, workers='all'), dict(unit='c06w', cases=12000, workers='all'), dict(unit='c06o', cases=20000, workers='all')],
     ),
-    min=dict(quick=dict(cases=8000, nontrivial=3000, classes={'prefix_with_compute': 3000, 'prefix_with_rejected_call': 1000, 'GenEigsComplexShiftSolver': 800, 'pairs_returned': 2000, 'wrapper_used_before': 2500, 'prefix_with_other_solver': 1500, 'prefix_with_user_calls': 1500, 'SymGEigsSolver<SparseSymMatProd,SparseRegularInverse>': 150, 'GenEigsComplexShiftSolver<SparseGenComplexShiftSolve>': 150}),
+    min=dict(quick=dict(cases=18000, nontrivial=8000, classes={'prefix_with_compute': 3000, 'prefix_with_rejected_call': 1000, 'GenEigsComplexShiftSolver': 800, 'pairs_returned': 2000, 'wrapper_used_before': 2500, 'prefix_with_other_solver': 1500, 'prefix_with_user_calls': 1500, 'SymGEigsSolver<SparseSymMatProd,SparseRegularInverse>': 150, 'DavidsonSymEigsSolver<user operator>': 1500, 'DavidsonSymEigsSolver<SparseSymMatProd>': 1500, 'davidson_iterated': 3000, 'LOBPCGSolver': 1500, 'lobpcg_runs_between': 1000, 'lobpcg_success': 300, 'GenEigsComplexShiftSolver<SparseGenComplexShiftSolve>': 150}),
              thorough=dict(cases=250000, nontrivial=100000)),
     rule='case = (solver class, matrix recipe, n <= 24, nev, ncv, shift, target arguments and start vector, prefix history of up to 4 operations). Non-trivial = the prefix contains at least one compute(); every case also shares '
          'the operator between two solvers. Distinct = 64-bit hash of the draw log.',
